@@ -1,24 +1,24 @@
 SPECIFICATION Spec
 CONSTANTS
-  Inst = {1, 2}
-  InitUp = {2}
+  Inst = {1}
+  InitUp = {1}
   Alerts = {"a"}
   GW = 1
-  GI = 10
-  RI = 35
-  PT = 12
-  ST = 2
+  GI = 3
+  RI = 20
+  PT = 3
+  ST = 0
   MinT = 10
   Maint = 1000
   MaxDelay = 1
-  Quantum = 6
-  MaxTime = 120
+  Quantum = 4
+  MaxTime = 44
   Rule = "sum"
-  Cfgs = {"A"}
+  Cfgs = {"A", "B"}
   InitCfg = "A"
-  RL = "safe"
+  RL = "stopfirst"
   Off = {}
-  Lim <- LateStart
+  Lim <- QReload
 VIEW View
 INVARIANTS AtLeastOnce NoDuplicateWhenHealthy SilenceSurvivesRestart NoRepeatAfterRestart ReadyEventually RoutedByConfigInForce StatusShowsConfigInForce ReceiversAgree Sane
 CHECK_DEADLOCK FALSE
